@@ -39,7 +39,7 @@ def cases(tier, seed):
     if tier != 'quick':
         for t in itertools.product(range(len(ALPHABET)), repeat=3):
             texts.append([ALPHABET[i] for i in t])
-    for _ in range(120 if tier == 'quick' else 3000):
+    for _ in range(120 if tier == 'quick' else 12000):
         texts.append([r.choice(ALPHABET) for _ in range(r.randint(3, 40))])
     if tier == 'quick':
         for _ in range(420):
